@@ -492,6 +492,18 @@ def call_lib(I, name, args, kwargs, node):
         return ListLit([TupS([k, grp]) for k, grp in out])
     if name == "operator.or_":
         return I.dict_union(a[0], a[1])
+    if name.startswith("operator.") and len(a) == 2 and name.split(".")[1] in ("eq", "ne", "lt", "le", "gt", "ge", "is_", "is_not", "contains"):
+        import ast as _ast
+        fn_ = name.split(".")[1]
+        if fn_ == "contains":
+            return I.compare(_ast.In(), a[1], a[0])
+        opc = {"eq": _ast.Eq, "ne": _ast.NotEq, "lt": _ast.Lt, "le": _ast.LtE, "gt": _ast.Gt, "ge": _ast.GtE, "is_": _ast.Is, "is_not": _ast.IsNot}[fn_]
+        return I.compare(opc(), a[0], a[1])
+    if name in ("operator.not_", "operator.truth") and len(a) == 1:
+        t = I.truth(a[0])
+        return Top("truth unknown") if t is None else Const((not t) if name.endswith("not_") else t)
+    if name == "operator.getitem" and len(a) == 2:
+        return I.getitem(a[0], a[1], node)
     if name.startswith("builtins."):
         return builtin(I, name.split(".", 1)[1], a, kwargs, node)
     # numpy / datetime / math: value-level -> keep provenance only
